@@ -54,11 +54,24 @@ func propC14(ch core.Chooser, st *core.Stats) error {
 		}
 		return ukeys[ch.Int("key", 0, len(ukeys)-1)]
 	}
+	var keepErr error
 	keep := func(what string, s []byte) {
 		if s == nil {
 			return
 		}
 		kept = append(kept, retained{what: what, slice: s, copy: append([]byte{}, s...)})
+		if what != "GetAppend" && cap(s) > len(s) && keepErr == nil {
+			// the slice is the caller's: growing it within its capacity must neither fault nor
+			// reach memory of the database (a later comparison with the reference shows damage)
+			if err := core.SafeFault(func() error {
+				t := append(s, 0xEE, 0xEE, 0xEE, 0xEE)
+				_ = t
+				return nil
+			}); err != nil {
+				keepErr = fmt.Errorf("appending to the %d-byte slice (capacity %d) returned by %s faulted: %v", len(s), cap(s), what, err)
+			}
+			st.Count("returned_slices_with_spare_capacity_appended_to", 1)
+		}
 	}
 	verify := func(when string) error {
 		return core.SafeFault(func() error {
@@ -89,6 +102,9 @@ func propC14(ch core.Chooser, st *core.Stats) error {
 	}
 	steps := ch.Int("steps", 1, core.Scale(80, 300))
 	for i := 0; i < steps; i++ {
+		if keepErr != nil {
+			return keepErr
+		}
 		switch core.Weighted(ch, "op", []int{8, 3, 4, 3, 2, 2, 1, 1}) {
 		case 0:
 			k := key()
